@@ -151,7 +151,21 @@ func (g *G) smallAmount() string {
 // Mutator returns one journaled mutator line (never a snapshot / revert / boundary op).
 func (g *G) Mutator() string {
 	r := g.r
-	switch r.Intn(22) {
+	switch r.Intn(25) {
+	case 22: // SetStorage with 0..2 distinct slots
+		l := "setstorage " + g.addr()
+		n := r.Intn(3)
+		for i := 0; i < n && i < len(g.u.keys32); i++ {
+			l += " " + hx.Hex(g.u.keys32[i]) + " " + g.pick(g.u.vals32)
+		}
+		return l
+	case 23: // AddERC20Binding of a name no FT op of the scripts uses
+		name := []string{"bind1", "bind2"}[r.Intn(2)]
+		bind := common.GenerateERC20Binding(name)
+		pos := []uint64{0, 3, ^uint64(0)}[r.Intn(3)]
+		return fmt.Sprintf("addbinding %s %s %s %d %d", hx.Hex([]byte(name)), hx.Hex(bind[:]), g.addr(), pos, 18)
+	case 24:
+		return fmt.Sprintf("setdata %s %s %s", g.addr(), g.pick(g.u.keys), g.pick(g.u.vals))
 	case 0:
 		return fmt.Sprintf("setnonce %s %d", g.addr(), g.u.nonces[r.Intn(len(g.u.nonces))])
 	case 1:
@@ -283,7 +297,9 @@ func (g *G) BoundaryPair() (setup []string, before, after string) {
 // Query returns one reader line.
 func (g *G) Query() string {
 	r := g.r
-	switch r.Intn(20) {
+	switch r.Intn(21) {
+	case 20:
+		return "allrefund " + g.addr()
 	case 0:
 		return "exist " + g.addr()
 	case 1:
